@@ -556,6 +556,54 @@ fn main() {
         let _ = std::fs::remove_dir_all(&dir);
     }
 
+    // ---------------------------------------------------------------- observe: a concurrent reader of the path during saves
+    let mut observe = CaseWriter::new(&args.out, "observe");
+    for (oi, fmt) in [Fmt::FileZstd, Fmt::FileRaw, Fmt::Quant].iter().enumerate() {
+        let dir = scratch.join(format!("observe{oi}"));
+        let _ = std::fs::remove_dir_all(&dir);
+        std::fs::create_dir_all(&dir).unwrap();
+        let path = dir.join("snap.bin");
+        let mk = |rng: &mut Rng, dist: &mut Dist, tag: i64| { let s = TensorStore::new(); let ops = gen_ops(rng, 4, 4, dist); apply_router(s.router(), &ops); let mut t = TensorData::new(); t.set("gen", TensorValue::Scalar(ScalarValue::Int(tag))); s.put("marker", t).unwrap(); s };
+        let (sa, sb) = (mk(&mut rng, &mut dist, 1), mk(&mut rng, &mut dist, 2));
+        save_store(&sa, &path, *fmt).unwrap();
+        let bytes_a = std::fs::read(&path).unwrap();
+        let dump_a = dump_router(load_store(&path, *fmt).unwrap().router());
+        save_store(&sb, &path, *fmt).unwrap();
+        let bytes_b = std::fs::read(&path).unwrap();
+        let dump_b = dump_router(load_store(&path, *fmt).unwrap().router());
+        let stop = Arc::new(std::sync::atomic::AtomicBool::new(false));
+        let (stop2, path2, fmt2, dir2) = (stop.clone(), path.clone(), *fmt, dir.clone());
+        let reader = std::thread::spawn(move || {
+            let (mut polls, mut missing, mut foreign) = (0u64, 0u64, 0u64);
+            let mut first_bad: Option<String> = None;
+            while !stop2.load(std::sync::atomic::Ordering::Relaxed) {
+                polls += 1;
+                match std::fs::read(&path2) {
+                    Err(e) if e.kind() == std::io::ErrorKind::NotFound => { missing += 1; if first_bad.is_none() { first_bad = Some(format!("poll {polls}: no file at the path")); } }
+                    Err(_) => {}
+                    Ok(bs) => {
+                        if bs != bytes_a && bs != bytes_b {
+                            // not byte-identical to either complete file: does it at least load as one of them?
+                            let probe = dir2.join("probe.bin");
+                            let _ = std::fs::write(&probe, &bs);
+                            let ok = load_store(&probe, fmt2).map(|s| { let d = dump_router(s.router()); dump_bits_eq(&d, &dump_a) || dump_bits_eq(&d, &dump_b) }).unwrap_or(false);
+                            if !ok { foreign += 1; if first_bad.is_none() { first_bad = Some(format!("poll {polls}: {} bytes that are neither snapshot", bs.len())); } }
+                        }
+                    }
+                }
+            }
+            (polls, missing, foreign, first_bad)
+        });
+        let saves = args.budget(400, 4000) as u64;
+        for k in 0..saves { save_store(if k % 2 == 0 { &sa } else { &sb }, &path, *fmt).unwrap(); }
+        stop.store(true, std::sync::atomic::Ordering::Relaxed);
+        let (polls, missing, foreign, first_bad) = reader.join().unwrap();
+        dist.add("observe.polls", polls);
+        dist.add("observe.saves", saves);
+        observe.push(&format!("({saves}, {polls}, {missing}, {foreign})"), &format!("observe#{oi} fmt={} saves={saves} polls={polls} polls_without_file={missing} polls_with_foreign_content={foreign} first={first_bad:?}", ["file+zstd", "file", "quantising"][oi]), polls > saves);
+        let _ = std::fs::remove_dir_all(&dir);
+    }
+
     // ---------------------------------------------------------------- big stores (implementation only)
     let nbig = args.budget(2, 6);
     for i in 0..nbig {
@@ -582,23 +630,70 @@ fn main() {
         }
     }
 
-    // ---------------------------------------------------------------- tt: long embeddings against the documented tolerance
-    // TTConfig::for_dim documents `tolerance: 1e-4` (relative, per truncated SVD); the check allows 1e-2.
-    let ntt = args.budget(6, 60);
-    for i in 0..ntt {
+    // a large, highly repetitive store through the default (zstd) file format: > 1 MiB serialised, compresses > 100x
+    {
+        let entries = args.budget(5000, 60000);
         let s = TensorStore::new();
-        let kind = i % 3;
-        let v: Vec<f32> = match kind {
-            0 => (0..384).map(|j| ((j as f32) * 0.01).sin()).collect(),                       // smooth (low TT rank)
-            1 => (0..384).map(|_| (rng.below(2000) as f32 - 1000.0) / 1000.0).collect(),     // generic
-            _ => (0..384).map(|j| if j % 7 == 0 { (rng.below(2000) as f32 - 1000.0) / 1000.0 } else { 0.0 }).collect(), // sparse
+        for j in 0..entries {
+            let mut t = TensorData::new();
+            t.set("vector", TensorValue::Vector(vec![1.0; 64]));
+            t.set("name", TensorValue::Scalar(ScalarValue::String("the same string in every entry".into())));
+            t.set("zeros", TensorValue::Scalar(ScalarValue::Bytes(vec![0; 32])));
+            s.put(format!("{}{j:06}", ["user:", "node:", "emb:", "table:"][j % 4]), t).unwrap();
+        }
+        dist.add("big.compressible_entries", entries as u64);
+        let before = dump_router(s.router());
+        let p = scratch.join("bigc.bin");
+        let raw_len = s.snapshot_bytes().map(|b| b.len()).unwrap_or(0);
+        let res = s.save_snapshot(&p).map_err(|e| e.to_string()).and_then(|_| TensorStore::load_snapshot(&p).map_err(|e| e.to_string()));
+        let file_len = std::fs::metadata(&p).map(|m| m.len()).unwrap_or(0);
+        big.push("c", &format!("big#compressible entries={entries} serialised={raw_len}B file={file_len}B"), true);
+        match res {
+            Ok(l) => if !dump_bits_eq(&before, &dump_router(l.router())) { hits.push("big-roundtrip", "large repetitive store differs after save_snapshot/load_snapshot", json!({"kind": "big", "index": "compressible"})); },
+            Err(e) => hits.push("big-roundtrip", &format!("{entries} repetitive entries ({raw_len} bytes serialised, {file_len} bytes on disk): save_snapshot succeeded but load_snapshot failed: {e}"), json!({"kind": "big", "index": "compressible", "entries": entries})),
+        }
+        let _ = std::fs::remove_file(&p);
+    }
+
+    // ---------------------------------------------------------------- tt: long embeddings against the documented tolerance
+    // TTConfig::for_dim documents `tolerance: 1e-4` relative per truncated SVD, i.e. d * 1e-4 for d cores
+    // (3e-4 for 384 dimensions, 4e-4 at most for the dimensions used here); the check allows 1e-3.
+    const TT_TOL: f64 = 1e-3;
+    let ntt = args.budget(30, 300);
+    for i in 0..ntt {
+        let dim = [384usize, 256, 768][i % 3];
+        let kind = (i / 3) % 5;
+        let shape = tensor_compress::TTConfig::for_dim(dim).map(|c| c.shape).unwrap_or_else(|_| vec![dim]);
+        let mut unif = |r: &mut Rng| (r.below(2_000_001) as f32 - 1_000_000.0) / 1_000_000.0;
+        let (v, label): (Vec<f32>, String) = match kind {
+            0 => ((0..dim).map(|j| ((j as f32) * 0.01).sin()).collect(), "smooth".into()),
+            1 => ((0..dim).map(|_| unif(&mut rng)).collect(), "generic".into()),
+            2 => ((0..dim).map(|j| if j % 7 == 0 { unif(&mut rng) } else { 0.0 }).collect(), "sparse".into()),
+            _ => {
+                // almost low rank in the reshaping the decomposition uses: two separable terms plus noise
+                let eps = *rng.pick(&[0.001f32, 0.003, 0.01, 0.03, 0.08]);
+                let terms: Vec<Vec<Vec<f32>>> = (0..2).map(|_| shape.iter().map(|n| (0..*n).map(|_| 0.3 + unif(&mut rng).abs()).collect()).collect()).collect();
+                let mut base = vec![0f32; dim];
+                for (j, slot) in base.iter_mut().enumerate() {
+                    let mut rem = j;
+                    let mut idx = vec![0usize; shape.len()];
+                    for (k, n) in shape.iter().enumerate().rev() { idx[k] = rem % n; rem /= n; }
+                    *slot = terms.iter().map(|t| idx.iter().enumerate().map(|(k, ix)| t[k][*ix]).product::<f32>()).sum();
+                }
+                let norm = (base.iter().map(|x| (*x as f64).powi(2)).sum::<f64>() / dim as f64).sqrt() as f32;
+                (base.iter().map(|x| x + eps * norm * (unif(&mut rng) + unif(&mut rng) + unif(&mut rng))).collect(), format!("low-rank+{eps}noise"))
+            }
         };
-        dist.hit(["tt.smooth", "tt.generic", "tt.sparse"][kind]);
+        dist.hit(&format!("tt.{}", if kind >= 3 { "almost_low_rank" } else { ["smooth", "generic", "sparse"][kind] }));
+        dist.hit(&format!("tt.dim.{dim}"));
+        let cfg = SlabRouterConfig { embedding_dim: dim, ..Default::default() };
+        let r = SlabRouter::with_config(&cfg);
         let mut t = TensorData::new();
         t.set("_embedding", TensorValue::Vector(v.clone()));
-        s.put("emb:x", t.clone()).unwrap();
-        s.put("plain", t).unwrap();
-        let l = if i % 2 == 0 { let p = scratch.join("tt.bin"); s.save_snapshot(&p).unwrap(); TensorStore::load_snapshot(&p).unwrap() } else { let bs = s.snapshot_bytes().unwrap(); let n = TensorStore::new(); n.restore_from_bytes(&bs).unwrap(); n };
+        r.put("emb:x", t.clone()).unwrap();
+        r.put("plain", t).unwrap();
+        let fmt = (i / 15) as u64 % 3;
+        let l = match router_roundtrip(&r, fmt, &scratch, "tt") { Ok((l, _)) => l, Err(e) => { hits.push("roundtrip-error", &format!("round trip failed: {e}"), json!({"kind": "tt", "index": i})); continue; } };
         let err = |k: &str| -> f64 {
             match l.get(k).ok().and_then(|g| g.get("_embedding").cloned()) {
                 Some(TensorValue::Vector(w)) if w.len() == v.len() => {
@@ -610,12 +705,12 @@ fn main() {
             }
         };
         let (e_emb, e_plain) = (err("emb:x"), err("plain"));
-        tt.push(&format!("{i}"), &format!("tt#{i} kind={kind} relerr(emb:x)={e_emb:.5} relerr(plain)={e_plain:.5}"), true);
+        tt.push(&format!("{i}"), &format!("tt#{i} dim={dim} kind={label} fmt={fmt} relerr(emb:x)={e_emb:.6} relerr(plain)={e_plain:.6}"), true);
         if e_plain != 0.0 {
-            hits.push("plain-vector-changed", &format!("384-dim vector under a plain key changed: relative error {e_plain}"), json!({"kind": "tt", "index": i}));
+            hits.push("plain-vector-changed", &format!("{dim}-dim vector under a plain key changed: relative error {e_plain}"), json!({"kind": "tt", "index": i}));
         }
-        if !(e_emb <= 1e-2) {
-            hits.push("tt-lossy", &format!("384-dim embedding under emb:x came back with relative error {e_emb:.4} (documented TT tolerance 1e-4, allowed 1e-2); vector kind {}", ["smooth", "generic", "sparse"][kind]), json!({"kind": "tt", "index": i, "seed": args.seed, "relerr": e_emb}));
+        if !(e_emb <= TT_TOL) {
+            hits.push("tt-lossy", &format!("{dim}-dim embedding ({label}) under emb:x came back with relative error {e_emb:.5} (documented TT tolerance d*1e-4 <= 4e-4, allowed {TT_TOL})"), json!({"kind": "tt", "index": i, "seed": args.seed, "relerr": e_emb, "dim": dim, "vector": label}));
         }
     }
     // restore_from_bytes into a store drops the relational slab (shared root cause with C08)
@@ -641,10 +736,10 @@ fn main() {
         &args.out,
         json!({
             "property": "C07", "seed": args.seed, "tier": args.tier,
-            "kinds": [hdr.summary(), rt.summary(), q.summary(), crash.summary(), slabs.summary(), big.summary(), tt.summary()],
+            "kinds": [hdr.summary(), rt.summary(), q.summary(), crash.summary(), observe.summary(), slabs.summary(), big.summary(), tt.summary()],
             "distribution": dist.json(),
             "hits": hits.0,
-            "nontrivial_rule": "rt/q: the store holds at least one key; hdr: entry count > 0; crash: an older snapshot existed at the path; slabs: more than six populated views; big: non-empty; tt: always",
+            "nontrivial_rule": "rt/q: the store holds at least one key; hdr: entry count > 0; crash: an older snapshot existed at the path; slabs: more than six populated views; big: non-empty; tt: always; observe: the reader polled more often than the writer saved",
         }),
     );
 }
